@@ -1,11 +1,11 @@
 package main
 
 import (
-	"sync"
 	"encoding/hex"
 	"fmt"
 	"strconv"
 	"strings"
+	"sync"
 )
 
 // Case is one line of the operation stream shared by the library executor and the Lean driver.
